@@ -6,6 +6,7 @@ CONSTANTS
   MaxPings = 1
   PingFirst = TRUE
   NoRaces = TRUE
+  ServerCuts = FALSE
   Slow = {}
   EmitEdges = TRUE
 INIT Init
